@@ -16,6 +16,9 @@ RATES = [0.0, 0.02, 0.05, -0.01, 0.2]
 MARKUPS = [0.0, 0.005, 0.03]
 CASHES = [4096.0, -1024.0, 0.0]
 F = fut("F", 2.0, 0.25)
+RATE2 = Rate("second reference rate")
+R2, M2 = 0.04, 0.01          # rate of the second reference contract and markup of the fee schedule that refers to it
+RQ = 0.03                    # value of a new fixing of the first reference rate
 
 
 def configs(tier):
@@ -59,18 +62,21 @@ def build(cash, pos, r, m):
     qty = (left - cash) / 100.0
     if qty:
         b.transact(Trade(T0, S, qty, 100.0, 100.0, b.fees))
+    b.exchange.process_EventNBBO(EventNBBO(T0, RATE2, R2, R2))
     b.accrued_interest(T0, True)   # histories start with an initial accrual, as Broker.rebalance does
+    b._mcx_rm = (r, m, 1)          # the rate and markup in force, carried with the snapshot
     return b
 
 
 def ops():
     out = [("acc", i) for i in range(4)] + [("qry", i) for i in range(4)] + [("acc0",), ("qry0",), ("back",), ("reb", 1), ("reb", 2),
-           ("rebt", 1, 50.0), ("rebt", 2, -50.0)]      # rebalances that DO trade (can flip the sign of the cash balance)
+           ("rebt", 1, 50.0), ("rebt", 2, -50.0),      # rebalances that DO trade (can flip the sign of the cash balance)
+           ("fix",), ("fees",)]     # a new fixing of the reference rate / a new fee schedule referring to another rate contract
     return out
 
 
 def key(b):
-    return (round(b._holdings_quantity[b.base_currency], 6), b._last_accrual,
+    return (b._mcx_rm, round(b._holdings_quantity[b.base_currency], 6), b._last_accrual,
             round(b._holdings_margins.get(F, 0.0), 9), b._holdings_quantity.get(F, 0.0), round(b._holdings_quantity.get(S, 0.0), 9))
 
 
@@ -85,6 +91,20 @@ def step(b, op, r, m):
     last = b._last_accrual
     margin = b._holdings_margins.get(F, 0.0)
     k0 = key(b)
+    r, m, which = b._mcx_rm
+    if op[0] == "fix":
+        # published at the instant of the last accrual: the whole following period is at the new rate
+        if which == 2 or r == RQ:
+            return ["__skip__"]
+        b.exchange.process_EventNBBO(EventNBBO(last, RATE, RQ, RQ))
+        b._mcx_rm = (RQ, m, 1)
+        return msgs
+    if op[0] == "fees":
+        if which == 2:
+            return ["__skip__"]
+        b.fees = BrokerFees(markup=M2, interest_rate=RATE2, proportional=b.fees.proportional, fixed=b.fees.fixed)
+        b._mcx_rm = (R2, M2, 2)
+        return msgs
     if op[0] in ("acc", "qry", "acc0", "qry0"):
         d = DELTAS[op[1]] if len(op) > 1 else timedelta(0)
         accrue = op[0].startswith("acc")
@@ -179,7 +199,7 @@ def search(cfg, depth):
                 msgs = ["operation %r raised %r" % (op, ex)]
             res["transitions"] += 1
             nh = hist + (op,)
-            if msgs == ["__insolvent__"]:
+            if msgs == ["__insolvent__"] or msgs == ["__skip__"]:
                 continue
             if msgs:
                 res["violations"].append((nh, "; ".join(msgs[:2])))
@@ -291,7 +311,7 @@ def replay(case, **kw):
                 msgs = step(b, tuple(op), cfg[2], cfg[3])
             except Exception as ex:
                 msgs = ["operation %r raised %r" % (op, ex)]
-            if msgs and msgs != ["__insolvent__"]:
+            if msgs and msgs not in (["__insolvent__"], ["__skip__"]):
                 return msgs
         return []
     c, msgs, _ = compositions(cfg, timedelta(seconds=case["unit_s"]), case["n"])
